@@ -13,7 +13,12 @@ RULE = ("kinds mat.histeq (exact tier) / mat.hist (float tiers) / mat.norms / ma
         "(<=4x4 thorough) with every index argument 0..dim+1 (out-of-range included), (p) every ordered pair of 24 editing operations "
         "(in-range arguments) on 1x1, 2x2, 3x2, 2x3, each as its own two-step history (+3000 sampled triples, thorough), (n) the four "
         "f64 norms on every shape 0..B x 0..B and norm_p for p in {1,1.5,2,3,4}, (c) seeded random histories of up to 40 operations "
-        "(rat, f64, Complex); in the exact tier every state dump is followed by the derived PartialEq of the matrix against a freshly "
+        "(rat, f64, Complex); round four: (v) every scalar-argument operation x the values 0, 1, -1, 2, 1/2 x every shape 0..3 x 0..3, operands of "
+        "special structure (zero matrix, the matrix itself, identity, unit triangular, cyclic shift, zero / ones / unit vectors), both operands the SAME "
+        "object (&m + &m, &m - &m, &m * &m; also after editing steps), op-pairs on 1x3, 3x1, 0x2, 2x0, 1x2, 3x3 (one per seed; all thorough), "
+        "f64 * matrix with 0, -0.0, +-1, 2, 1/2 on empty / single-row / single-column / wide / tall shapes, f64 and Complex histories with scalars and "
+        "entries from the special menus (axes, unit modulus, |re| = |im|) judged by a numpy list-of-rows reference, norms on tie / single-entry / "
+        "signed-zero patterns with norm_p at p = 1, 2, 1/2; in the exact tier every state dump is followed by the derived PartialEq of the matrix against a freshly "
         "built one; distinct = distinct executor line; non-trivial = non-empty matrix or an operation that must panic")
 TRUSTED = ["Coq 8.16.1 kernel + vm_compute", "Rust executor /verif/harness (Rat = i128 rationals)", "python driver: generators, list-of-rows reference model, stream comparators",
            "hand-written Gallina model coq/Model/{Matrix,MatOps,MatNorms}.v tied to src/matrix/*.rs by differential execution (Rat vs Qc exact; f64/Complex vs primitive floats)"]
@@ -35,7 +40,9 @@ MANIFEST = dict(
           "norms = textbook definitions over any ordered arithmetic and over R; the legacy set_col is refuted on the committed witnesses. "
           "The model is run against the implementation (Rat vs Qc exact, f64/Complex bitwise) on every product shape 0..5 (0..8 thorough), "
           "every operation x every index on small shapes, every ordered pair of editing operations, random histories, with the derived "
-          "PartialEq against a rebuilt matrix after every step; a list-of-rows reference and mpmath search for a failing input."),
+          "PartialEq against a rebuilt matrix after every step; a list-of-rows reference and mpmath search for a failing input (round four: the "
+          "reference also judges the f64 / Complex histories, by tolerance; scalar arguments 0, +-1, 2, 1/2 on every shape; same-object operands; "
+          "op-pairs on single-row, single-column and empty shapes)."),
     note="f64 rounding of the norms / libm powf is tied and searched, not proved; raw (i,j) writes and operand non-mutation are observed at run time only.",
     technique="Coq proof (loop invariants over a representation predicate; no axioms except the stdlib reals for norms_real) + model/implementation differential execution (vm_compute vs Rust executor) + reference-model search",
     design="7 (C03), Appendix E")
@@ -368,10 +375,25 @@ def rot(g, xs, k):
     o = g.below(len(xs))
     return [xs[(o + i) % len(xs)] for i in range(k)]
 
+def mk_ctor(elt, r, c, x, family="ctor"):
+    ar, fl = ARITH[elt], FLAT[elt]
+    term = ("(@fl_mat %s %s (@mat_new %s %d %d %s) ++ fl_nat %d ++ fl_nat 1 ++ @fl_mat %s %s (@mat_empty %s) ++ fl_nat 0 ++ fl_nat 1)"
+            % (ar, fl, ar, r, c, coq_scalar(elt, x), r * c, ar, fl, ar))
+    return Case(elt, "mat.ctor %d %d %s" % (r, c, tok_scalar(elt, x)), term, meta={"kind": "ctor", "r": r, "c": c, "x": x},
+                family=family, nontrivial=(r * c > 0))
+
 def gen_special(rng, tier):
     cases = []
     quick = tier == "quick"
     S = 3
+    # (k) the constructors: Matrix::new(r, c, x) for every shape 0..4 x 0..4 and fill values 0, 1, -1, 2, 1/2, 7/3 (the library itself
+    # only ever calls new(.., zero)); Matrix::empty()
+    g = rng.fork("ctor")
+    for r in range(5):
+        for c in range(5):
+            for x in (rot(g, SCALAR_CLASSES + [Fraction(7, 3)], 2) if quick else SCALAR_CLASSES + [Fraction(7, 3)]):
+                cases.append(mk_ctor('rat', r, c, x))
+            cases.append(mk_ctor('f64', r, c, g.choice([0.0, -0.0, 1.5, -2.0])))
     # (v) every operation with a scalar argument x the value classes 0, 1, -1, 2, 1/2 x every shape 0..3 x 0..3 (distinct non-zero
     # entries, so that a fast path returning the wrong shape, the operand itself or a stale buffer shows)
     g = rng.fork("scalar-classes")
@@ -396,6 +418,10 @@ def gen_special(rng, tier):
             eye_c = (c, c, [Fraction(1) if i == j else Fraction(0) for i in range(c) for j in range(c)])
             eye_r = (r, r, [Fraction(1) if i == j else Fraction(0) for i in range(r) for j in range(r)])
             readers += [("mul", eye_c), ("mul_l", eye_r), ("mul", (c, 2, [Fraction(0)] * (2 * c)))]
+            # unit-triangular and permutation operands (unit diagonal / a single 1 per row, but not the identity)
+            readers += [("mul", (c, c, [Fraction(1) if i == j else (Fraction(2 + i + j) if j > i else Fraction(0)) for i in range(c) for j in range(c)])),
+                        ("mul_l", (r, r, [Fraction(1) if i == j else (Fraction(-1 - i - j) if j < i else Fraction(0)) for i in range(r) for j in range(r)])),
+                        ("mul", (c, c, [Fraction(1) if j == (i + 1) % max(c, 1) else Fraction(0) for i in range(c) for j in range(c)]))]
             # both operands the SAME object
             readers += [("add_self", m0), ("sub_self", m0), ("mul_self", m0)]
             cases.append(mk('rat', m0, readers, "special-operands"))
@@ -457,6 +483,8 @@ def gen_special(rng, tier):
 def case_from_json(j):
     if j.get("meta", {}).get("kind") == "norms":
         m0 = j["meta"]["m0"]; return mk_norms((m0[0], m0[1], [float(x) for x in m0[2]]), "corpus")
+    if j.get("meta", {}).get("kind") == "ctor":
+        mm = j["meta"]; return mk_ctor(j["elt"], mm["r"], mm["c"], Fraction(mm["x"]) if j["elt"] == 'rat' else float(mm["x"]), "corpus")
     if j.get("meta", {}).get("kind") == "scale_l":
         m0 = j["meta"]["m0"]; return mk_scale_l((m0[0], m0[1], [float(x) for x in m0[2]]), float(j["meta"]["x"]), "corpus")
     if j.get("meta", {}).get("kind") == "norm_p":
@@ -486,6 +514,12 @@ def case_from_json(j):
 def oracle(case, items):
     if case.meta.get("kind") in ("norms", "norm_p"):
         return norms_oracle(case, items)
+    if case.meta.get("kind") == "ctor":
+        r, c, x = case.meta["r"], case.meta["c"], case.meta["x"]
+        exp = [('i', r), ('i', c)] + ref_items_scalar(case.elt, x) * (r * c) + [('i', r * c), ('i', 1), ('i', 0), ('i', 0), ('i', 0), ('i', 1)]
+        if items != exp:
+            return "Matrix::new(%d, %d, %r) / Matrix::empty() differ from their definitions: got %r, expected %r" % (r, c, x, items[:14], exp[:14])
+        return None
     if case.meta.get("kind") == "scale_l":
         r, c, vals = case.meta["m0"]; x = case.meta["x"]
         exp = ([('i', r), ('i', c)] + [('f', f64_bits(v * x)) for v in vals]) * 2
